@@ -148,12 +148,37 @@ Theorem C16_resolver_contained :
 Proof. exact resolver_contained. Qed.
 Print Assumptions C16_resolver_contained.
 
+(* ---- template evaluation ---------------------------------------------------------------------------------------- *)
+(* post-processing templates and template finalizers (inline text or a file below `path`, at any nesting depth) are
+   rendered inside Jinja2's sandbox: rendering adds no effect to a conversion, so with default arguments and a
+   non-granting environment loading + converting has no effect whatever the template text says; a template that
+   reaches for an underscore attribute (the way out of the sandbox: x.__class__, f.__globals__ ...) is refused with
+   jinja2's SecurityError instead of being evaluated.  That Jinja2's sandbox itself is tight is outside the model;
+   the correspondence check observes on the real objects that every template's environment is a sandbox that
+   refuses such an expression, and renders hostile templates under the audit hook. *)
+Theorem C16_render_no_effect :
+  forall E d t phs, snd (convert_full E d t phs) = snd (convert E t phs).
+Proof. exact render_no_effect. Qed.
+Print Assumptions C16_render_no_effect.
+
+Theorem C16_no_effect_default_full :
+  forall E d, env_on (e_ext E) = false -> env_on (e_tv E) = false ->
+    forall t, fst (load_dict E d default_args) = Ok t -> forall phs, snd (convert_full E d t phs) = [].
+Proof. exact no_effect_default_full. Qed.
+Print Assumptions C16_no_effect_default_full.
+
+Theorem C16_unsafe_template_refused :
+  forall E d t phs, doc_unsafe E d = true -> fst (convert E t phs) = Ok tt ->
+    fst (convert_full E d t phs) = Crash C_Sandbox.
+Proof. exact unsafe_template_refused. Qed.
+Print Assumptions C16_unsafe_template_refused.
+
 (* ---- the oracle evaluated on the implementation's observations (judge bit 2) accepts whatever the model does --- *)
 Theorem C16_oracle_sound :
   forall E d a o tr1 phs, wf_real (real E) -> load_dict E d a = (o, tr1) ->
     let ot := match o with Ok t => Some (obs_tree t) | _ => None end in
     let tr2 := match o with Ok t => snd (convert E t phs) | _ => [] end in
-    spec_ok a (env_grants (e_ext E)) (env_grants (e_tv E)) (real E) ot (tr1 ++ tr2) false = true.
+    spec_ok a (env_grants (e_ext E)) (env_grants (e_tv E)) (real E) ot (tr1 ++ tr2) false false = true.
 Proof. exact model_satisfies_spec. Qed.
 Print Assumptions C16_oracle_sound.
 
@@ -162,7 +187,7 @@ Definition ex_fs : env :=
   {| e_ext := None; e_tv := Some (lit "TRUE");
      real := fun s => if str_eqb s (lit "/a/link.py") then [lit "b"; lit "v.py"]
                       else if str_eqb s (lit "/a") then [lit "a"] else if str_eqb s (lit "/b") then [lit "b"] else [lit "a"; lit "v.py"];
-     loadable := fun _ => true; fetch_ok := fun _ => true |}.
+     loadable := fun _ => true; fetch_ok := fun _ => true; tpl_file := fun _ _ => None |}.
 Definition ex_doc : yv :=
   YMap [(k_transformations, YList [YMap [(k_type, YStr t_cmd); (k_cmd, YStr (lit "id")); (k_ext, YBool true)]]);
         (k_finalizers, YList [YMap [(k_type, YStr t_nested);
